@@ -87,6 +87,11 @@ Theorem C15_ggm_path_eq_generic : forall d U,
   liouville_closed RO d U (ggm_basis RO d) = liouville_generic RO d U (ggm_basis RO d).
 Proof. exact ggm_path_eq_generic. Qed.
 Print Assumptions C15_ggm_path_eq_generic.
+(* PARTIAL (bounded): the index arrays as the source computes them (np.repeat / the closed formula for k)
+   give the pair list of the model for every d < 64; full statement kept as a definition *)
+Definition C15_ggm_index_full : Prop := forall d, ggm_pairs_src d = ggm_pairs d.
+Theorem C15_ggm_index_partial : forall d, (d < 64)%nat -> ggm_pairs_src d = ggm_pairs d.
+Proof. exact ggm_pairs_src_ok. Qed.
 Theorem C15_all_paths : forall d basis is_ggm U, label_ok d basis is_ggm ->
   liouville_representation RO d is_ggm U basis = liouville_generic RO d U basis.
 Proof. exact liouville_all_paths. Qed.
